@@ -30,9 +30,21 @@ type C07Scenario struct {
 	// ConnArgs: the embedding program hands the session to
 	// Server.HandleConnArgs with the read-only module (command mode on a
 	// module, public API) instead of the daemon protocol; real client only.
-	ConnArgs bool      `json:"conn_args,omitempty"`
-	Tr       Transport `json:"tr"`
+	ConnArgs bool `json:"conn_args,omitempty"`
+	// Pull: the client only DOWNLOADS (or lists) Target, which may name paths
+	// that do not exist; reading must not change the module either.
+	Pull bool `json:"pull,omitempty"`
+	// Restricted: the server is created without rsyncd.DontRestrict(), as a
+	// program embedding it normally would; the harness has made landlock a
+	// no-op, which is what a kernel without landlock amounts to (BestEffort).
+	Restricted bool      `json:"restricted,omitempty"`
+	Tr         Transport `json:"tr"`
 }
+
+// restrictedServers counts landlock layers this worker process has stacked
+// (each restricted server adds one, the kernel allows 16): the worker asks to
+// be recycled in time.
+var restrictedServers int
 
 type c07 struct{}
 
@@ -83,6 +95,14 @@ func (c07) Generate(seed uint64, tier string, index int) any {
 	if !sc.Hostile && !sc.FSModule && g.R.Intn(3) == 0 {
 		sc.ConnArgs = true
 	}
+	if g.R.Intn(6) == 0 {
+		// a download or listing request, also for paths that do not exist
+		sc.Pull, sc.Hostile, sc.ConnArgs = true, true, false
+		args := []string{"--server", "--sender"}
+		args = append(args, flags...)
+		sc.Flags = append(args, ".", sc.Target)
+	}
+	sc.Restricted = g.R.Intn(12) == 0
 	sc.Tr = g.TransportFor(12, 64<<10)
 	// the refusal (a short error message) must fit into the server→client
 	// buffer while the client is still writing, as on any real socket
@@ -122,12 +142,22 @@ func (c07) Run(t *testing.T, scenario any, job *Job, res *Result) {
 		return
 	}
 	slog := &lockedBuf{max: 1 << 18}
+	sopts := []rsyncd.Option{rsyncd.WithStderr(slog)}
+	if sc.Restricted && hooksEnabled {
+		relaxLandlock()
+		restrictedServers++
+		if restrictedServers >= 10 {
+			res.Recycle = true
+		}
+	} else {
+		sopts = append(sopts, rsyncd.DontRestrict())
+	}
 	srv, err := rsyncd.NewServer([]rsyncd.Module{
 		{Name: "rw", Path: rwDir, Writable: true},
 		{Name: "ro", Path: roDir},
 		{Name: "rofs", FS: os.DirFS(ro2)},
 		{Name: "r", Path: rwDir, Writable: true}, // a writable module whose name is a prefix of the read-only ones
-	}, rsyncd.WithStderr(slog), rsyncd.DontRestrict())
+	}, sopts...)
 	if err != nil {
 		res.Inconclusive = err.Error()
 		return
@@ -162,6 +192,28 @@ func (c07) Run(t *testing.T, scenario any, job *Job, res *Result) {
 	var status string
 	var refErr error
 	var sawError bool
+	if sc.Pull {
+		lo, _, _, _, _ := refproto.ArgOpts(sc.Flags)
+		rr.Ref = func(w *refproto.Wire) error {
+			refproto.Pull(w, refproto.PullOpts{Daemon: true, Module: modName, Args: sc.Flags, List: lo, ServerIsSender: true, MaxData: 1 << 20,
+				Plan: func(int, *refproto.Entry, int32) (bool, []byte, int, int) { return true, nil, 0, 0 }})
+			return nil
+		}
+		out := RunWithRef(t, rr)
+		res.AddRef(out)
+		if out.HookErr != nil {
+			res.Violate("readonly-module-modified", "modified:pull", fmt.Sprintf("download request args=%v: %v", sc.Flags, out.HookErr))
+			return
+		}
+		if err := checkUnchanged(); err != nil {
+			res.Violate("readonly-module-modified", "modified:pull", fmt.Sprintf("download request args=%v: %v", sc.Flags, err))
+			return
+		}
+		res.Probe("download_requests", 1)
+		res.NonTrivial = true
+		res.Sample = map[string]any{"pull": true, "args": sc.Flags, "restricted": sc.Restricted}
+		return
+	}
 	if sc.Hostile {
 		var data = map[string][]byte{}
 		entries := []refproto.Entry{{Name: ".", Mode: refproto.SIFDIR | 0755, Mtime: 1500000000, Size: 4096, Flags: refproto.XTopDir}}
